@@ -77,6 +77,16 @@ def _slim_file(path, rows):
         json.dump([{"t": "tab", "strs": strs}] + out, fh, separators=(",", ":"))
 
 
+def _hist_text(case, r):
+    """for a fetch of a history: what the same process did before it"""
+    k = r.get("step", 0)
+    if k <= 1:
+        return ""
+    before = (case["prev"] + [case])[:k - 1]
+    return "[after, in the same process: %s] " % "; ".join(
+        "%s fetch %s with allow-list %s" % (f["kind"], f["hops"][0]["url"], f["allow"]) for f in before)
+
+
 def _run_shim(spec, env, out, errs):
     try:
         p = vlib.inpkg_test(spec[0], spec[1], run=spec[2], env=env, timeout=3000, extra_args=["-v"])
@@ -95,14 +105,30 @@ def _warm(errs):
     return ths
 
 
-def _batch(ctx, d, binp, label, cfg, consts, stats, warm=None):
-    ev = ctx.ev
+def _fetch_of(c, r):
+    """the fetch a flow record belongs to: the case itself, or (history cases) fetch number r['step'] of its history"""
+    k = r.get("step", 0)
+    if k == 0 or k == len(c["prev"]) + 1:
+        return c
+    return c["prev"][k - 1]
+
+
+def _flow_key(c, r):
+    if not c["prev"]:
+        return _case_key(c)
+    return "hist|%s|fetch%d" % ("=>".join(_case_key(f) for f in c["prev"] + [c]), r["step"])
+
+
+def _batch(ctx, d0, binp, label, cfg, consts, stats, warm=None, hist=False):
+    """one TLC exploration -> replay -> TLC judgement; fills its own `stats` (batches may run concurrently)"""
     t0 = time.time()
+    d = os.path.join(d0, re.sub(r"\W+", "_", label))
+    os.makedirs(d)
     cases_abs = os.path.join(d, "abs.ndjson")
     res = vlib.run_tlc("Net", cfg, workers=min(8, vlib.NCPU), timeout=3000, heap="8g", payloads={"CASE": cases_abs}, consts=consts)
     if res.violated:
         raise vlib.HarnessError("design model Net.tla violates %s (%s):\n%s" % (res.violated, label, res.error_state))
-    ev.tlc(res, label)
+    stats["tlc"].append((res, label))
     n = res.payload_counts.get("CASE", 0)
     if n == 0:
         raise vlib.HarnessError("TLC produced no cases for " + label)
@@ -111,6 +137,7 @@ def _batch(ctx, d, binp, label, cfg, consts, stats, warm=None):
     summ = json.loads([l for l in p.stdout.splitlines() if l.startswith("SUMMARY ")][-1][8:])
     if summ["cases"] != n:
         raise vlib.HarnessError("expand consumed %d of %d cases" % (summ["cases"], n))
+    nfetch = summ["fetches"]
     t1 = time.time()
     if warm:
         for t in warm:
@@ -124,7 +151,8 @@ def _batch(ctx, d, binp, label, cfg, consts, stats, warm=None):
         for f in files[tag]:
             if os.path.exists(f):
                 os.unlink(f)
-        env = {"VERIF_NET_CASES": cases_con, "VERIF_NET_FLOWS": files[tag][0], "VERIF_NET_PROBES": files[tag][1]}
+        env = {"VERIF_NET_CASES": cases_con, "VERIF_NET_FLOWS": files[tag][0], "VERIF_NET_PROBES": files[tag][1],
+               "VERIF_NET_MODE": "hist" if hist else "single"}
         t = threading.Thread(target=_run_shim, args=(spec, env, outs, errs))
         t.start()
         ths.append(t)
@@ -142,14 +170,14 @@ def _batch(ctx, d, binp, label, cfg, consts, stats, warm=None):
             rows += vlib.read_ndjson(f)
     flows = [r for r in rows if r["t"] == "flow"]
     probes = [r for r in rows if r["t"] == "probe"]
-    if len(flows) != n:
-        raise vlib.HarnessError("%d cases but %d flow records (%s)" % (n, len(flows), label))
+    if len(flows) != nfetch:
+        raise vlib.HarnessError("%d fetches in %d cases but %d flow records (%s)" % (nfetch, n, len(flows), label))
 
     # replay verdict: connect attempts outside the model's permission set
     replay_viol = {}
     for r in flows:
-        c = cases[r["id"]]
-        key = _case_key(c)
+        c = _fetch_of(cases[r["id"]], r)
+        key = _flow_key(cases[r["id"]], r)
         stats["keys_all"].add(key)
         if r["hops"]:
             stats["keys_nontrivial"].add(key)
@@ -167,16 +195,19 @@ def _batch(ctx, d, binp, label, cfg, consts, stats, warm=None):
         for cn in r["conns"]:
             stats["connect_targets"].add(_ip(cn["ip"]))
         if r["replay_viol"]:
-            replay_viol[r["id"]] = (key, "%s fetch %s (allow-list %s): %s" % (
-                c["kind"], " -> ".join(h["url"] for h in c["hops"]), c["allow"], "; ".join(r["replay_viol"][:3])), {"case": c, "record": r})
+            replay_viol[(r["id"], r.get("step", 0))] = (key, "%s%s fetch %s (allow-list %s): %s" % (
+                _hist_text(cases[r["id"]], r), c["kind"], " -> ".join(h["url"] for h in c["hops"]), c["allow"], "; ".join(r["replay_viol"][:3])),
+                {"case": cases[r["id"]], "record": r})
     if not stats["samples_done"]:
         stats["samples_done"] = True
         picks = [c for c in cases.values() if len(c["hops"]) == 1 and len(c["hops"][0]["answers"]) == 2][:1] + \
                 [c for c in cases.values() if len(c["hops"]) == 3 and c["hops"][2]["st"] == "blocked"][:1]
+        if hist:
+            picks = [c for c in cases.values() if c["prev"] and c["prev"][0]["allow"] and not c["allow"] and c["hops"][0]["st"] == "blocked"][:1]
         for c in picks:
-            ev.sample({"case": c, "record": [r for r in flows if r["id"] == c["id"]][0]})
+            stats["samples"].append({"case": c, "records": [r for r in flows if r["id"] == c["id"]]})
         if probes:
-            ev.sample({"probe": probes[len(probes) // 2]})
+            stats["samples"].append({"probe": probes[len(probes) // 2]})
 
     # TLC judges every record (chunks of CHUNK records per step; a rejected chunk is re-judged record by record)
     t4 = time.time()
@@ -202,7 +233,7 @@ def _batch(ctx, d, binp, label, cfg, consts, stats, warm=None):
         if l == 0:
             validated += len(pending)
             pending = []
-            ev.tlc(res, "NetTrace:" + label)
+            stats["tlc"].append((res, "NetTrace:" + label))
             break
         base = (l - 1) * CHUNK
         validated += base
@@ -220,19 +251,19 @@ def _batch(ctx, d, binp, label, cfg, consts, stats, warm=None):
         stats["tlc_unjudged_after_cap"] += len(sub)
     stats["tlc_unjudged_after_cap"] += len(pending)
     for r, inv in rejected:
-        c = cases[r["id"]]
+        c = _fetch_of(cases[r["id"]], r)
         if r["t"] == "flow":
-            key = _case_key(c)
-            what = "NetTrace!%s rejects the recorded %s fetch %s (allow-list %s): requests %s, connect attempts %s, client %s" % (
-                inv, c["kind"], " -> ".join(h["url"] for h in c["hops"]), c["allow"],
+            key = _flow_key(cases[r["id"]], r)
+            what = "NetTrace!%s rejects the recorded %s%s fetch %s (allow-list %s): requests %s, connect attempts %s, client %s" % (
+                inv, _hist_text(cases[r["id"]], r), c["kind"], " -> ".join(h["url"] for h in c["hops"]), c["allow"],
                 [h["url"] for h in r["hops"]], [cn["target"] for cn in r["conns"]], r["client"])
         else:
             key = "probe|%s|%s|%s|%s" % (r["kind"], ",".join(r["allowstr"]), r["hoststr"], ",".join(_ip(a) for a in r["resolved"]))
             what = "NetTrace!ProbeOK rejects the decision of the dial guard inside the real %s client: host %r resolving to %s was let through (%d dial attempts), allow-list %s" % (
                 r["kind"], r["hoststr"], [_ip(a) for a in r["resolved"]], r["tried"], r["allowstr"])
-        if r["t"] == "flow" and r["id"] in replay_viol:
-            what += " [replay: %s]" % replay_viol.pop(r["id"])[1]
-        ctx.report(key, what, {"case": c, "record": r})
+        if r["t"] == "flow" and (r["id"], r.get("step", 0)) in replay_viol:
+            what += " [replay: %s]" % replay_viol.pop((r["id"], r.get("step", 0)))[1]
+        ctx.report(key, what, {"case": cases[r["id"]], "record": r})
         stats["tlc_rejected"] += 1
     for key, what, obj in replay_viol.values():
         ctx.report(key, what + " [not among the records TLC was asked to pinpoint]", obj)
@@ -240,11 +271,32 @@ def _batch(ctx, d, binp, label, cfg, consts, stats, warm=None):
     vlib.log("C30 %s: %d cases; TLC+expand %.0fs, wait for shim builds %.0fs, replay %.0fs, compare %.0fs, TLC judge %.0fs" % (
         label, n, t1 - t0, t2 - t1, t3 - t2, t4 - t3, time.time() - t4))
     stats["cases"] += n
+    stats["fetches"] += nfetch
+    stats["processes"] += sum(o.get("processes", 0) for o in outs.values())
     stats["probes"] += len(probes)
     stats["probe_permits"] += sum(1 for r in probes if r["permit"])
     stats["validated"] += validated
     stats["dns_queries"] += sum(o.get("dns_queries", 0) for o in outs.values())
     stats["dns_rebinds"] += sum(o.get("dns_rebinds", 0) for o in outs.values())
+
+
+def _new_stats():
+    return {"keys_all": set(), "keys_nontrivial": set(), "flows_with_connects": 0, "cases_with_predicted_connects": 0, "connects": 0,
+            "requests": 0, "design_divergences": 0, "divergence_samples": [], "connect_targets": set(), "samples_done": False,
+            "tlc_rejected": 0, "replay_rejected": 0, "tlc_unjudged_after_cap": 0, "cases": 0, "fetches": 0, "probes": 0, "probe_permits": 0,
+            "validated": 0, "dns_queries": 0, "dns_rebinds": 0, "tlc": [], "samples": [], "processes": 0}
+
+
+def _merge(stats, st):
+    for k, v in st.items():
+        if isinstance(v, set):
+            stats[k] |= v
+        elif isinstance(v, bool):
+            pass
+        elif isinstance(v, int):
+            stats[k] = max(stats.get(k, 0), v) if k.startswith("max_requests_") else stats.get(k, 0) + v
+        elif isinstance(v, list):
+            stats[k] = stats.get(k, []) + v
 
 
 def run(ctx):
@@ -255,21 +307,49 @@ def run(ctx):
         errs = []
         warm = _warm(errs)
         binp = vlib.build_bin("net")
-        stats = {"keys_all": set(), "keys_nontrivial": set(), "flows_with_connects": 0, "cases_with_predicted_connects": 0, "connects": 0,
-                 "requests": 0, "design_divergences": 0, "divergence_samples": [], "connect_targets": set(), "samples_done": False,
-                 "tlc_rejected": 0, "replay_rejected": 0, "tlc_unjudged_after_cap": 0, "cases": 0, "probes": 0, "probe_permits": 0, "validated": 0, "dns_queries": 0, "dns_rebinds": 0}
         v = 1 + (ctx.seed - 1) % 3
+        # (label, cfg, constants, history batch?)
         if ctx.quick:
-            batches = [("Net_quick.cfg variant=%d" % v, "Net_quick.cfg", {"Variant": str(v)})]
+            batches = [("Net_quick.cfg variant=%d" % v, "Net_quick.cfg", {"Variant": str(v)}, False),
+                       ("Net_hist.cfg variant=%d" % v, "Net_hist.cfg", {"Variant": str(v)}, True)]
         else:
-            batches = [("Net_thorough.cfg variant=%d" % k, "Net_thorough.cfg", {"Variant": str(k)}) for k in (1, 2, 3)]
-            batches.append(("Net_ans3.cfg variant=%d" % v, "Net_ans3.cfg", {"Variant": str(v)}))
+            batches = [("Net_thorough.cfg variant=%d" % k, "Net_thorough.cfg", {"Variant": str(k)}, False) for k in (1, 2, 3)]
+            batches.append(("Net_ans3.cfg variant=%d" % v, "Net_ans3.cfg", {"Variant": str(v)}, False))
+            batches.append(("Net_hist.cfg wide variant=%d" % v, "Net_hist.cfg", {
+                "Variant": str(v), "AllowForms": '{"none", "exact", "case", "dot", "ip", "parent"}',
+                "PoolClasses": '{"pub4", "p10", "loop4", "mpriv", "ula6"}'}, True))
+            batches.append(("Net_hist3.cfg variant=%d" % v, "Net_hist3.cfg", {"Variant": str(v)}, True))
+        stats = _new_stats()
         complete = True
-        for i, (label, cfg, consts) in enumerate(batches):
-            _batch(ctx, d, binp, label, cfg, consts, stats, warm if i == 0 else None)
-            if len(ctx.violations) > 40 and i + 1 < len(batches):
-                complete = False
-                break
+        # the history batches run next to the single-fetch batches (independent scratch directories and statistics)
+        lanes = [[b for b in batches if not b[3]], [b for b in batches if b[3]]]
+        lane_errs, lane_stats = [], []
+
+        def lane(bs):
+            try:
+                for i, (label, cfg, consts, hist) in enumerate(bs):
+                    st = _new_stats()
+                    lane_stats.append(st)
+                    _batch(ctx, d, binp, label, cfg, consts, st, warm if i == 0 else None, hist)
+                    if len(ctx.violations) > 40:
+                        break
+            except Exception as e:
+                lane_errs.append(e)
+        ths = [threading.Thread(target=lane, args=(bs,)) for bs in lanes if bs]
+        for t in ths:
+            t.start()
+        for t in ths:
+            t.join()
+        if lane_errs:
+            raise lane_errs[0]
+        if len(lane_stats) < len(batches):
+            complete = False
+        for st in lane_stats:
+            _merge(stats, st)
+        for res, label in stats["tlc"]:
+            ev.tlc(res, label)
+        for smp in stats["samples"][:6]:
+            ev.sample(smp)
         # observation only (outside the fetches the property enumerates): the opt-in link check of `validate -links`
         try:
             p = vlib.sh([binp, "linkprobe"], timeout=60, check=False)
@@ -282,16 +362,19 @@ def run(ctx):
         if stats["design_divergences"]:
             vlib.log("NOTE C30: %d cases where the real code's connect attempts differ from the design model's prediction (not a verdict): %s" % (
                 stats["design_divergences"], stats["divergence_samples"][:1]))
-        ev.cov(evaluations=stats["cases"] + stats["probes"],
+        ev.cov(evaluations=stats["fetches"] + stats["probes"],
                distinct_nontrivial=len(stats["keys_nontrivial"]),
                traces_validated_against_impl=stats["validated"],
                rule="every terminal state of Net.tla within the cfg bounds is one case (kind x allow-list spelling x chain of URL classes, each "
                     "with its resolver answer sequence over the address representatives of the chosen variant); each case is replayed into "
                     "the real fetch path and its record judged by TLC, plus one probe of the real client's dial guard per distinct (allow-list, "
-                    "host, answers); distinct = distinct (kind, allow form, per-hop scheme/userinfo/host/answer addresses); non-trivial = "
+                    "host, answers); history cases (Net_hist*.cfg) are sequences of fetches with their own allow-lists performed in ONE fresh "
+                    "process each through the guard inside the client object the real constructor returns, every fetch judged on its own "
+                    "configuration; distinct = distinct (kind, allow form, per-hop scheme/userinfo/host/answer addresses); non-trivial = "
                     "at least one request of the case got past URL validation to the transport, so a dial guard was consulted",
                exhaustive=complete and stats["tlc_unjudged_after_cap"] == 0,
-               replayed_cases=stats["cases"], distinct_cases=len(stats["keys_all"]), guard_probes=stats["probes"],
+               replayed_cases=stats["cases"], replayed_fetches=stats["fetches"], history_processes=stats["processes"],
+               distinct_cases=len(stats["keys_all"]), guard_probes=stats["probes"],
                guard_probe_permits=stats["probe_permits"], requests_reaching_transport=stats["requests"],
                connect_attempts_recorded=stats["connects"], flows_with_connect_attempts=stats["flows_with_connects"],
                distinct_connect_targets=len(stats["connect_targets"]), fake_dns_queries=stats["dns_queries"], rebinding_answers_served=stats["dns_rebinds"],
